@@ -140,8 +140,9 @@ class Run:
         key = ob.get("meta", {}).get("finding_key") or ob["id"]
         kf = self.known.lookup(self.pid, key)
         if kf is not None:
-            self.known_hits.append(kf)
-            print("KNOWN-FINDING: property=%s %s" % (self.pid, kf["text"]))
+            if kf not in self.known_hits:
+                self.known_hits.append(kf)
+                print("KNOWN-FINDING: property=%s %s" % (self.pid, kf["text"]))
             rec["known_finding"] = kf["key"]
             return
         confirmed = bool(rep and rep.get("confirmed"))
